@@ -12,6 +12,10 @@
 //	    augment cannot be applied yields errors (positioned at the statement for missing targets and
 //	    targets that cannot have children).
 //
+// Besides the sets of gen.GenerateC07 every batch holds sets of gen.C07RevSub: revisions of one module
+// loaded together that include the same submodule(s), with augments aimed at what the shared submodule
+// defines (the latest revision, the one a path through a plain import denotes, must hold those nodes).
+//
 // (b) and (c) run inside the crash-isolated worker (the hook); what they need travels in Case.Extra.
 package main
 
@@ -1630,7 +1634,9 @@ func main() {
 		"leaf/leaf-list/anyxml/anydata targets, missing targets, errors in the body, submodules, choice/case, notification, action) then seeded sets of " +
 		"harness/gen/c07.go (2-4 modules importing each other, submodules, groupings; shapes: chains of depth 3-5 in worst and random order, " +
 		"targets made by uses / in choice, case / rpc, action input, output (written and implicit) / notifications / submodule trees, collisions, " +
-		"targets that cannot have children, missing targets, errors in the body; mixed sets combine several); evaluations = base sets + executed " +
+		"targets that cannot have children, missing targets, errors in the body; mixed sets combine several) and of harness/gen/c07revsub.go (two or three " +
+		"revisions of a module loaded together that include the same submodule(s); augments from every kind of text, importing with and without " +
+		"revision-date, aimed at nodes the shared submodule defines, below them, or made there by another augment); evaluations = base sets + executed " +
 		"permutation variants; distinct_nontrivial = distinct base sets (by text) that Process accepts and in which >= 1 augment is applied on a " +
 		"target that exists only because of another augment, a uses, a submodule or an unwritten rpc input/output, or that end in an " +
 		"augment-related error (augment-not-found, duplicate-node, or any error positioned at an augment statement)"
